@@ -2269,7 +2269,7 @@ func (s *Store) Noop(id string) (raft.ApplyFuture, error) {
 // RORWCount returns the number of read-only and read-write statements in the
 // given ExecuteQueryRequest. EXPLAIN statements are always considered read-only.
 func (s *Store) RORWCount(eqr *proto.ExecuteQueryRequest) (nRW, nRO int) {
-	for _, stmt := range eqr.Request.Statements {
+	for _, stmt := range eqr.GetRequest().GetStatements() {
 		sql := stmt.Sql
 		if sql == "" {
 			continue
